@@ -121,3 +121,4 @@ THEOREMS_RESUMETIE = ["ResumeTie." + t for t in "iData_is_model_cursor iVec_eq_i
 THEOREMS_GATESTIE = ["GatesTie." + t for t in "gateData_is_isDue gateCkpt_is_isDue gateVec_is_isDue gateXyz_is_isDue gateScreen_is_isDue".split()]
 THEOREMS_C05C = ["C05c." + t for t in "same_all_eq packBatch_rowwise packBatch_row_independent coarse_shortcut_witness coarse_first_row_ok".split()]
 THEOREMS_C17C = ["C17c." + t for t in "gap_depends_on_own_row gaps_fst position_gather_witness position_gather_invisible_on_prefix".split()]
+THEOREMS_C03C = ["C03c.getError_accepts_imp_ksa_accepts", "C03c.ksa_accepts_unconverged_density"]
